@@ -64,6 +64,27 @@ fn main() {
         }
         i += 1;
     }
+    // generic replay: a replay file written by Report::finish names the tier, the seed and the
+    // case (parallel loop number, index); checks with a replay routine of their own use the rest
+    if let Some(p) = &replay {
+        if let Ok(txt) = std::fs::read_to_string(p) {
+            if let Ok(v) = serde_json::from_str::<serde_json::Value>(&txt) {
+                if let Some(s) = v["seed"].as_u64() {
+                    seed = s;
+                }
+                match v["tier"].as_str() {
+                    Some("thorough") => tier = Tier::Thorough,
+                    Some("quick") => tier = Tier::Quick,
+                    _ => {}
+                }
+                let c = &v["replay"]["_case"];
+                if let (Some(ph), Some(ix)) = (c["phase"].as_u64(), c["index"].as_u64()) {
+                    pool::set_replay_only(ph, ix);
+                    println!("replaying case {ix} of parallel loop {ph} (seed {seed}, tier {})", tier.name());
+                }
+            }
+        }
+    }
     let scale =
         std::env::var("VERIF_SCALE").ok().and_then(|s| s.parse::<f64>().ok()).unwrap_or(1.0);
     let opts = Opts {
